@@ -536,11 +536,75 @@ def class_method(repo, class_qual: str, name: str, depth: int = 0):
     return None
 
 
+def _bind_call(helper: ast.FunctionDef, call: ast.Call, first: Optional[ast.AST]):
+    """Parameter -> argument expression for a call of `helper` (positional, keyword, defaults, *args); None if the
+    call shape is not understood."""
+    a = helper.args
+    if a.kwarg is not None or any(isinstance(x, ast.Starred) for x in call.args) or any(k.arg is None for k in call.keywords):
+        return None
+    pos = [x.arg for x in a.posonlyargs + a.args]
+    mapping: Dict[str, ast.AST] = {}
+    args = ([first] if first is not None else []) + list(call.args)
+    if len(args) > len(pos) and a.vararg is None:
+        return None
+    for name, arg in zip(pos, args):
+        mapping[name] = arg
+    if a.vararg is not None:
+        mapping[a.vararg.arg] = ast.Tuple(elts=list(args[len(pos):]), ctx=ast.Load())
+    for k in call.keywords:
+        if k.arg in mapping or k.arg not in pos + [x.arg for x in a.kwonlyargs]:
+            return None
+        mapping[k.arg] = k.value
+    for name in pos + [x.arg for x in a.kwonlyargs]:
+        if name not in mapping:
+            d = default_of(helper, name)
+            if d is None:
+                return None
+            mapping[name] = d
+    return mapping
+
+
 def inline_self_calls(repo, class_qual: str, fn: ast.FunctionDef, depth: int = 2) -> ast.FunctionDef:
-    """Copy of a method in which statement-level calls `self._helper(a, b)` of private helpers of the same class
-    (hierarchy) are replaced by the helper's body with the parameters substituted (inlining bound `depth`).
-    Only helpers that are plain statement lists without a value-returning `return` are inlined."""
+    """Copy of a function in which calls of PRIVATE helpers - `self._helper(...)` of the same class (hierarchy) or a
+    module-level `_helper(...)` of the same module - are replaced by the helper's body with the parameters
+    substituted (inlining bound `depth`).  Inlined are calls that form a whole statement: `self._h(...)`,
+    `return self._h(...)` and `x = self._h(...)` (the last only when the helper's single `return` is its last
+    statement).  Locals of the helper are renamed so that they cannot capture names of the caller."""
     self_name = params(fn)[0] if params(fn) else "self"
+    module = class_qual.split(".")[0]
+    counter = [0]
+
+    def resolve(call):
+        f = call.func
+        if isinstance(f, ast.Attribute) and un(f.value) == self_name and f.attr.startswith("_") and not f.attr.startswith("__") \
+                and "." in class_qual:
+            h = class_method(repo, class_qual, f.attr)
+            if h is not None and not any(un(d) in ("staticmethod", "classmethod", "property", "cached_property") for d in h.decorator_list):
+                return h, ast.Name(id=self_name, ctx=ast.Load())
+            if h is not None and any(un(d) == "staticmethod" for d in h.decorator_list):
+                return h, None
+        if isinstance(f, ast.Name) and f.id.startswith("_") and not f.id.startswith("__") and repo.has(f"{module}.{f.id}"):
+            h = repo.lookup(f"{module}.{f.id}")
+            if isinstance(h, ast.FunctionDef) and not h.decorator_list:
+                return h, None
+        return None, None
+
+    def body_of(helper, mapping):
+        counter[0] += 1
+        stored = {n.id for n in ast.walk(helper) if isinstance(n, ast.Name) and isinstance(n.ctx, ast.Store)}
+        stored |= {a.arg for lam in ast.walk(helper) if isinstance(lam, ast.Lambda) for a in lam.args.args}
+        rename = {n: f"{n}__inl{counter[0]}" for n in stored if n not in mapping}
+        body = [b for b in helper.body if not (isinstance(b, ast.Expr) and isinstance(b.value, ast.Constant))]
+        out = []
+        for b in body:
+            nb = clone(b)
+            for n in ast.walk(nb):
+                if isinstance(n, ast.Name) and n.id in rename:
+                    n.id = rename[n.id]
+            full = dict(mapping)
+            nb = subst(nb, full)
+            out.append(nb)
+        return out
 
     def expand(stmts, level):
         out = []
@@ -549,26 +613,39 @@ def inline_self_calls(repo, class_qual: str, fn: ast.FunctionDef, depth: int = 2
             for fld in ("body", "orelse", "finalbody"):
                 if hasattr(st, fld) and isinstance(getattr(st, fld), list):
                     setattr(st, fld, expand(getattr(st, fld), level))
-            call = st.value if isinstance(st, ast.Expr) and isinstance(st.value, ast.Call) else None
-            if call is not None and isinstance(call.func, ast.Attribute) and un(call.func.value) == self_name \
-                    and call.func.attr.startswith("_") and not call.func.attr.startswith("__") and level < depth \
-                    and not call.keywords and not any(isinstance(a, ast.Starred) for a in call.args):
-                helper = class_method(repo, class_qual, call.func.attr)
-                if helper is not None and not any(isinstance(n, ast.Return) and n.value is not None for n in walk_shallow(helper)) \
-                        and not helper.decorator_list:
-                    hps = params(helper)
-                    if len(hps) == len(call.args) + 1:
-                        mapping = {hps[0]: ast.Name(id=self_name, ctx=ast.Load())}
-                        mapping.update({p: a for p, a in zip(hps[1:], call.args)})
-                        body = [b for b in helper.body if not (isinstance(b, ast.Expr) and isinstance(b.value, ast.Constant))
-                                and not isinstance(b, ast.Return)]
-                        inlined = [subst(b, mapping) for b in body]
-                        for b in inlined:
-                            for n in ast.walk(b):
-                                if hasattr(n, "lineno"):
-                                    n.lineno = st.lineno
-                        out.extend(expand(inlined, level + 1))
-                        continue
+            call, form = None, None
+            if isinstance(st, ast.Expr) and isinstance(st.value, ast.Call):
+                call, form = st.value, "expr"
+            elif isinstance(st, ast.Return) and isinstance(st.value, ast.Call):
+                call, form = st.value, "return"
+            elif isinstance(st, ast.Assign) and isinstance(st.value, ast.Call) and len(st.targets) == 1:
+                call, form = st.value, "assign"
+            if call is not None and level < depth:
+                helper, first = resolve(call)
+                if helper is not None and helper is not fn and not any(isinstance(n, (ast.Yield, ast.YieldFrom)) for n in ast.walk(helper)):
+                    mapping = _bind_call(helper, call, first)
+                    rets = [n for n in walk_shallow(helper) if isinstance(n, ast.Return)]
+                    valued = [r for r in rets if r.value is not None]
+                    ok = mapping is not None
+                    if ok and form == "expr":
+                        ok = not valued
+                    if ok and form == "assign":
+                        ok = len(rets) == 1 and rets[0] is helper.body[-1] and rets[0].value is not None
+                    if ok:
+                        inlined = body_of(helper, mapping)
+                        if form == "expr":
+                            inlined = [b for b in inlined if not isinstance(b, ast.Return)] if all(r in helper.body for r in rets) else None
+                        elif form == "assign":
+                            last = inlined.pop()
+                            inlined.append(ast.Assign(targets=[clone(t) for t in st.targets], value=last.value, lineno=st.lineno))
+                        if inlined is not None:
+                            for b in inlined:
+                                for n in ast.walk(b):
+                                    if hasattr(n, "lineno") or isinstance(n, (ast.stmt, ast.expr)):
+                                        n.lineno = st.lineno
+                                ast.fix_missing_locations(b)
+                            out.extend(expand(inlined, level + 1))
+                            continue
             out.append(st)
         return out
     new = clone(fn)
